@@ -575,12 +575,20 @@ class HttpProxyPlugin(HttpProtocolHandlerPlugin):
         return False
 
     def handle_pipeline_response(self, raw: memoryview) -> None:
-        if self.pipeline_response is None:
-            self.pipeline_response = HttpParser(
-                httpParserTypes.RESPONSE_PARSER,
-            )
-        self.pipeline_response.parse(raw)
-        if self.pipeline_response.is_complete:
+        # Bytes received past the end of the previous response
+        # are the beginning of this one.
+        if self.response.buffer is not None:
+            raw = memoryview(self.response.buffer.tobytes() + raw.tobytes())
+            self.response.buffer = None
+        while len(raw) > 0:
+            if self.pipeline_response is None:
+                self.pipeline_response = HttpParser(
+                    httpParserTypes.RESPONSE_PARSER,
+                )
+            self.pipeline_response.parse(raw)
+            if not self.pipeline_response.is_complete:
+                break
+            raw = self.pipeline_response.buffer or memoryview(b'')
             self.pipeline_response = None
 
     def connect_upstream(self) -> None:
